@@ -617,6 +617,10 @@ def liftE (r : Except Exn α) : M α := fun s =>
   | .ok a => .ok a s
   | .error x => .err x s
 
+/-- the parser after an exception left `parse()`: the generator is finished; its read
+    bookkeeping is dead (normalised so that the state does not depend on where the chunk was cut) -/
+def deadParser (p : PState) : PState := { p with remPred := 0, utf8 := false, buf := [], dfa := 1 }
+
 /-- the `while pos < len(data)` loop of `Parser.feed` (frames phase), with the whole lazy
     pipeline run after each bite.  Result `true`: the data was consumed; `false`: the consumer
     stopped iterating (`break` in `WebSocket.feed`: closed or rejected) and the rest is dropped. -/
@@ -625,7 +629,7 @@ def feedLoop (data : Bytes) : M Bool := fun s =>
   else
     let n := s.p.remPred + 1
     match biteBytes s.cfg.v s.p (data.take n) with
-    | .error x => .err x s
+    | .error x => .err x { s with p := deadParser s.p }
     | .ok (p', out) =>
       let s1 := { s with p := p' }
       match out with
